@@ -360,6 +360,18 @@ def _exc_rec(W, e):
             'str': str(e), 'sp': sp, 'sv': sv}
 
 
+def _consuming(sink):
+    import copy
+
+    def handler(status):
+        sink.append(copy.deepcopy(status))
+        if isinstance(status, dict):
+            status.clear()
+        elif isinstance(status, list):
+            del status[:]
+    return handler
+
+
 def _invoke(conn, kind, hs, hp, statuses, pings):
     """The API call of one operation (connect() or a plain status())."""
     if kind == 'connect':
@@ -368,7 +380,13 @@ def _invoke(conn, kind, hs, hp, statuses, pings):
     skw = {}
     for arg, mode, sink in (('handle_status', hs, statuses),
                             ('handle_ping', hp, pings)):
-        if mode == 'custom':
+        if mode == 'custom' and arg == 'handle_status':
+            # a user handler may do what it likes with the dict it is
+            # handed: this one keeps a copy and then empties the original
+            # (nothing later - in this or any other query of the process -
+            # may depend on that object)
+            skw[arg] = _consuming(sink)
+        elif mode == 'custom':
             skw[arg] = sink.append
         elif mode == 'off':
             skw[arg] = False
